@@ -21,6 +21,14 @@ enumerated on the real generator:
 
 Oracle: map relative path -> bytes equals that of the neighbouring run that differs in exactly one dimension; equal
 path sets.  Every difference is classified by diffing the two outputs (cause tag) and reported with its own signature.
+Pickled type models of the Python target (_MODEL_) that differ are unpickled and compared attribute by attribute: the
+tag `pickled_model_content` is reserved for PyDSDL's own lazily filled bit-length-set caches (PYDSDL_LAZY_MEMO, the state
+known finding C07-pickled-memo names); any other attribute gets `pickled_model_attr:<names>`, differing pathlib objects
+`abs_source_path_in_pickled_model`, equal graphs with different bytes `pickled_model_bytes`.
+
+Input shapes (NAMESPACES): besides fans / deep nesting / ties / long names, the namespace `chains` holds dependency chains
+T -> U -> V (-> W) whose links sit in sibling / cousin namespaces of the head in every relative placement, so that which of
+head and tail is generated first is decided by one nested-namespace set (guard: both orders seen for every chain).
 
 Set literals/comprehensions in nunavut (not interceptable; `grep`/ast over src/nunavut minus bundled jinja2):
   jinja/environment.py:382  RESERVED_GLOBAL_NAMESPACES = {"ln","options","uses_queries","nunavut"}  iterated in
@@ -144,7 +152,7 @@ NAMESPACES: typing.Dict[str, typing.Dict[str, typing.Any]] = {
     # namespace" occurs once; each chain has links of its own (no chain renders the tail of another one earlier):
     #   1  a.T1 -> b.U1 -> b.V1          both links in ONE sibling          (+ a.S6: a service as the head, both halves)
     #   2  a.T2 -> b.U2[<=2] -> c.V2[2]  links in two different siblings, through arrays, delimited tail
-    #   3  c.T3 -> c.U3 (union) -> b.V3  first link in T's namespace, tail in a sibling
+    #   3  b.T3 -> b.U3 (union) -> c.V3  first link in T's namespace, tail in a sibling
     #   4  b.T4 -> a.U4 -> c.V4 -> c.W4  depth 3 over all three siblings
     #   5  c.p.T5 -> b.q.U5 -> b.q.V5    cousins (one level further down)
     #   6  a.T7 -> b.U7 -> a.V7          the tail back in T's own namespace, the middle link in a sibling
@@ -158,9 +166,9 @@ NAMESPACES: typing.Dict[str, typing.Dict[str, typing.Any]] = {
             "x/a/T2.1.0.dsdl": "x.b.U2.1.0[<=2] u\n" + _S,
             "x/b/U2.1.0.dsdl": "x.c.V2.1.0[2] v\n" + _S,
             "x/c/V2.1.0.dsdl": "uint16 v\n@extent 64\n",
-            "x/c/T3.1.0.dsdl": "x.c.U3.1.0 u\n" + _S,
-            "x/c/U3.1.0.dsdl": "@union\nx.b.V3.1.0 v\nuint8 w\n" + _S,
-            "x/b/V3.1.0.dsdl": "bool v\n" + _S,
+            "x/b/T3.1.0.dsdl": "x.b.U3.1.0 u\n" + _S,
+            "x/b/U3.1.0.dsdl": "@union\nx.c.V3.1.0 v\nuint8 w\n" + _S,
+            "x/c/V3.1.0.dsdl": "bool v\n" + _S,
             "x/b/T4.1.0.dsdl": "x.a.U4.1.0 u\n" + _S,
             "x/a/U4.1.0.dsdl": "x.c.V4.1.0 v\n" + _S,
             "x/c/V4.1.0.dsdl": "x.c.W4.1.0 w\n" + _S,
@@ -174,7 +182,7 @@ NAMESPACES: typing.Dict[str, typing.Dict[str, typing.Any]] = {
         },
         # (head, tail) per chain: type names; used by the vacuity guard (both generation orders of head and tail seen)
         "chains": [
-            ("x.a.T1", "x.b.V1"), ("x.a.S6", "x.b.V1"), ("x.a.T2", "x.c.V2"), ("x.c.T3", "x.b.V3"),
+            ("x.a.T1", "x.b.V1"), ("x.a.S6", "x.b.V1"), ("x.a.T2", "x.c.V2"), ("x.b.T3", "x.c.V3"),
             ("x.b.T4", "x.c.W4"), ("x.c.p.T5", "x.b.q.V5"), ("x.a.T7", "x.b.U7"),
         ],
     },
@@ -221,6 +229,7 @@ CORE_CFGS: typing.List[Cfg] = [
 ]
 # additionally run through the CLI with --generate-namespace-types (c/cpp: a copy of the built-in templates plus a
 # Namespace.j2 that walks T.data_types / T.get_nested_types())
+CHAINS_CFG: Cfg = ("chains", "py", True)  # the configuration the chain-order vacuity guard is computed on
 GNT_CORE: typing.List[Cfg] = [("multi", "c", True), ("multi", "html", True)]
 # in the quick core of the hash-seed axis only (otherwise sliced like any other configuration)
 HASHSEED_CORE: typing.List[Cfg] = [("long", "c", True), ("long", "cpp17", True), ("long", "py", True), ("long", "html", True)]
@@ -787,11 +796,14 @@ def _sched_job(job: dict) -> dict:
                 {"kind": "sched", "cfg": list(cfg), "dev": [list(d) for d in dev], "expect": spec["expect"]},
                 {"site": sites[-1]},
             )
-        results.append({"dev": [list(d) for d in dev], "trace": _trace_json(r.trace), "sites": sites, "differs": bool(diffs)})
+        results.append(
+            {"dev": [list(d) for d in dev], "trace": _trace_json(r.trace), "sites": sites, "differs": bool(diffs), "order": r.order}
+        )
     return {
         "cfg": cfg,
         "bag": bag,
         "results": results,
+        "ref_order": ref.order,
         "executions": 1 + len(job["specs"]),
         "order_changed": order_changed,
         "digests": sorted(digests),
@@ -905,8 +917,8 @@ def run(ctx: Ctx) -> int:
     stamp = permset.tree_stamp()
     cfgs = all_cfgs()
     core = [c for c in cfgs if c in CORE_CFGS]
-    if len(core) != len(CORE_CFGS):
-        raise HarnessError("core configuration list names unknown configurations")
+    if len(core) != len(CORE_CFGS) or CHAINS_CFG not in core:
+        raise HarnessError("core configuration list names unknown configurations / lacks the dependency-chain configuration")
     # thorough space per configuration: the full product over locations A/B, and every cwd x spelling at the two
     # locations whose directories are named like the namespace (the clock is independent of where the files are)
     all_tuples = [t for t in itertools.product(CLOCKS, CWDS, SPELL, ["A", "B"]) if t != REF_AMBIENT]
@@ -968,12 +980,20 @@ def run(ctx: Ctx) -> int:
     res2 = ctx.pool_map(_sched_job, jobs)
     one_dev_run = 0
     order_changed = 0
+    chain_orders: typing.Dict[typing.Tuple[str, str], typing.Set[bool]] = {c: set() for c in NAMESPACES["chains"]["chains"]}
     for r in res2:
         ctx.bag.merge(r["bag"])
         executions += r["executions"]
         one_dev_run += len(r["results"])
         order_changed += r["order_changed"]
         digests |= set(r["digests"])
+        if tuple(r["cfg"]) == CHAINS_CFG:  # which of head / tail of every dependency chain was generated first
+            for order in [r["ref_order"]] + [one["order"] for one in r["results"]]:
+                for head, tail in chain_orders:
+                    h, t = (n.replace(".", "/") + "_1_0.py" for n in (head, tail))
+                    if h not in order or t not in order:
+                        raise HarnessError(f"chains: {h} / {t} are not among the generated files {order}")
+                    chain_orders[(head, tail)].add(order.index(h) < order.index(t))
 
     # ---- phase 3 (thorough): two deviations; the second restricted to adjacent transpositions + reversal
     two_dev_run = 0
@@ -1039,6 +1059,9 @@ def run(ctx: Ctx) -> int:
         raise HarnessError(f"file kinds seen {sorted(kinds)}: expected type, namespace and support files")
     if order_changed == 0:
         raise HarnessError("no deviating schedule changed the generation order: the permuting set has no effect")
+    one_sided = sorted(f"{h}->{t}" for (h, t), seen in chain_orders.items() if len(seen) < 2)
+    if one_sided:  # order_changed > 0 here: schedules do reorder the generation, just not head against tail
+        ctx.vacuity(f"dependency chains whose head and tail were generated in one relative order only: {one_sided}", hard=True)
 
     permset.assert_tree_unchanged(stamp)
     _confirm(ctx)
@@ -1056,6 +1079,8 @@ def run(ctx: Ctx) -> int:
         two_deviation_space=two_dev_space,
         hashseed_processes=seed_runs,
         schedules_changing_generation_order=order_changed,
+        dependency_chains_generated_in_both_orders=sum(1 for v in chain_orders.values() if len(v) == 2),
+        dependency_chains=len(chain_orders),
         choice_sites=sorted(sites),
         default_traces={cfg_id(c): [cp[1] for cp in t] for c, t in ref_traces.items() if c in core},
     )
@@ -1103,6 +1128,8 @@ def run(ctx: Ctx) -> int:
             "is not controlled",
             "in-process runs reset nunavut's caches/singletons between executions (history dependence is C10)",
             "ambient differences are attributed per dimension by comparing tuples that differ in one coordinate",
+            "differing pickled models are told apart by the attributes that differ (unpickled with the installed pydsdl); only "
+            "pydsdl's MemoizationOperator caches map to the known finding C07-pickled-memo",
         ],
         min_outcomes=("distinct_outcomes", 2 * len(core)),
     )
